@@ -29,6 +29,7 @@ class CaseResult:
         self.enumerated = set()        # op indices whose exhausted set went through MCEnum
         self.trace_map = []            # trace index -> (op index, experiment index)
         self.mults = {}                # op index -> {experiment index: Mult(seq)} (R11)
+        self.strict = {}               # op index -> {experiment index: verdict with error budget 0} (only with also_strict)
         self.mults_doc = {}            # the same with the documentation's reading for partially crossed factors (MultDoc)
 
     def op(self, i):
@@ -40,7 +41,7 @@ class CaseResult:
 
 
 def run_design(cases, ops_fn, exhaust=lambda op: op.get("exhaust"), op_timeout=120, workers=16,
-               tlc_timeout=1500, do_enum=True, stats=None):
+               tlc_timeout=1500, do_enum=True, stats=None, err=0, also_strict=False):
     """ops_fn(case) -> list of ops.  Ops with op["exhaust"] true are compared as *sets* with the
     specification's valid set (enumerate mode) when the implementation returned fewer than op["n"]."""
     t0 = time.time()
@@ -60,8 +61,18 @@ def run_design(cases, ops_fn, exhaust=lambda op: op.get("exhaust"), op_timeout=1
                     traces.append(e)
         tcases.append(export.tlc_case(c, traces=traces, enum=False))
     path = tlc.write_cases(tcases, "trace")
-    tr = tlc.run_with_norm("MCTrace.tla", "MCTrace.cfg", path, workers=workers, timeout=tlc_timeout)
+    tr = tlc.run_with_norm("MCTrace.tla", "MCTrace.cfg", path, workers=workers, timeout=tlc_timeout,
+                           env={"VERIF_ERR": str(err)} if err else None)
+    strict = None
+    if err and also_strict:        # the same traces against the design as documented (budget 0): how many used the budget
+        strict = tlc.run_with_norm("MCTrace.tla", "MCTrace.cfg", path, workers=workers, timeout=tlc_timeout)
     os.unlink(path)
+    if strict is not None:
+        for rec in strict.records:
+            if rec[0] == "V":
+                r = results[rec[1] - 1]
+                oi, ei = r.trace_map[rec[2] - 1]
+                r.strict.setdefault(oi, {})[ei] = rec[3]
     for rec in tr.records:
         if rec[0] == "NB":
             results[rec[1] - 1].nb = rec[2:]
